@@ -2,6 +2,6 @@
 (* Emits every behaviour of Pipeline of exactly MaxSteps steps that ends in a state worth observing (something   *)
 (* travelled over the stream or switched key or was multiplied).                                                *)
 EXTENDS Pipeline, Json
-Interesting == \E i \in 1..Len(hist) : hist[i].op \in {"read", "switch", "wirekeys"}
+Interesting == \E i \in 1..Len(hist) : hist[i].op \in {"read", "switch", "wirekeys", "refresh"}
 Emit == (Len(hist) < MaxSteps \/ ~Interesting) \/ PrintT(<<"PROG", ToJson(hist)>>)
 =============================================================================
